@@ -268,7 +268,7 @@ func Do(args []string, conf *Config) ([]Package, error) {
 		tags += "," + strings.Join(export.BuildTags, ",")
 	}
 	cfg := &packages.Config{
-		Mode:       loadSyntax | packages.NeedDeps | packages.NeedModule | packages.NeedExportFile,
+		Mode:       loadSyntax | packages.NeedDeps | packages.NeedModule | packages.NeedExportFile | packages.NeedEmbedFiles,
 		BuildFlags: []string{"-tags=" + tags},
 		Fset:       token.NewFileSet(),
 		Tests:      conf.Mode == ModeTest,
